@@ -51,48 +51,70 @@ func runSolver(ctx context.Context, sp solverSpec, timeoutS int, file string) so
 	return solveOut{status: st, solver: sp.name, raw: s, secs: time.Since(t0).Seconds()}
 }
 
-// solveQuery: fast path with z3-new, then a race of all solvers.
+// solveQuery: z3-new and cvc5 are raced from the start; z3 4.8 joins after fastS seconds. The
+// first definite answer wins. With confirm, an unsat answer must be confirmed by a second solver.
 func solveQuery(file string, fastS, fullS int, confirm bool) solveOut {
 	t0 := time.Now()
-	r := runSolver(context.Background(), solvers[0], fastS, file)
-	if r.status != "unknown" && !confirm {
-		return r
-	}
-	first := r
 	ctx, cancel := context.WithCancel(context.Background())
 	defer cancel()
 	ch := make(chan solveOut, len(solvers))
-	n := 0
-	for i, sp := range solvers {
-		if i == 0 && fullS <= fastS && first.status == "unknown" {
-			continue
-		}
-		if confirm && i == 0 && first.status != "unknown" {
-			continue
-		}
-		n++
-		go func(sp solverSpec) { ch <- runSolver(ctx, sp, fullS, file) }(sp)
+	started := 0
+	start := func(sp solverSpec, t int) {
+		started++
+		go func() { ch <- runSolver(ctx, sp, t, file) }()
 	}
-	var best solveOut = first
-	for i := 0; i < n; i++ {
-		o := <-ch
-		if o.status == "unknown" {
-			if best.status == "unknown" && len(best.raw) < len(o.raw) {
-				best.raw = o.raw
+	start(solvers[0], fullS)
+	start(solvers[1], fullS)
+	late := time.After(time.Duration(fastS) * time.Second)
+	var best solveOut
+	best.status = "unknown"
+	var firstDef *solveOut
+	got := 0
+	for got < started {
+		select {
+		case <-late:
+			late = nil
+			if fullS > fastS {
+				start(solvers[2], fullS-fastS)
 			}
-			continue
-		}
-		if confirm && first.status != "unknown" {
-			if o.status != first.status {
-				best = solveOut{status: "unknown", solver: first.solver + "≠" + o.solver, raw: "solvers disagree: " + first.status + " vs " + o.status}
-				break
+		case o := <-ch:
+			got++
+			if o.status == "unknown" {
+				if len(best.raw) < len(o.raw) {
+					best.raw = o.raw
+				}
+				if best.solver == "" {
+					best.solver = o.solver
+				}
+				continue
 			}
-			best = first
-			best.solver = first.solver + "+" + o.solver
-			break
+			if !confirm || o.status == "sat" {
+				o.secs = time.Since(t0).Seconds()
+				return o
+			}
+			if firstDef == nil {
+				oo := o
+				firstDef = &oo
+				continue
+			}
+			if firstDef.status != o.status {
+				return solveOut{status: "unknown", solver: firstDef.solver + "≠" + o.solver, raw: "solvers disagree: " + firstDef.status + " vs " + o.status, secs: time.Since(t0).Seconds()}
+			}
+			r := *firstDef
+			r.solver = firstDef.solver + "+" + o.solver
+			r.secs = time.Since(t0).Seconds()
+			return r
 		}
-		best = o
-		break
+	}
+	if firstDef != nil {
+		// confirmed by nobody else within the limit: keep the single answer, marked
+		r := *firstDef
+		r.solver += "(unconfirmed)"
+		r.secs = time.Since(t0).Seconds()
+		return r
+	}
+	if best.solver == "" {
+		best.solver = "z3-new"
 	}
 	best.secs = time.Since(t0).Seconds()
 	return best
@@ -145,7 +167,7 @@ func (o *Obligation) query(axioms []*Term) *Query {
 					return
 				}
 				seenT[t.id] = true
-				if o.RP.ex.idxSeen[t.id] && !t.bound && len(cands) < 12 {
+				if o.RP.ex.idxSeen[t.id] && !t.bound && len(cands) < idxCandLimit {
 					cands = append(cands, t)
 				}
 				for _, a := range t.args {
@@ -200,8 +222,9 @@ type solveCfg struct {
 func solveAll(obls []*Obligation, cfg solveCfg) {
 	os.MkdirAll(cfg.dir, 0o755)
 	type job struct {
-		o    *Obligation
-		file string
+		o      *Obligation
+		file   string
+		qfFile string
 	}
 	var jobs []job
 	// rendering is sequential (term store is not concurrent)
@@ -219,7 +242,25 @@ func solveAll(obls []*Obligation, cfg solveCfg) {
 		if err := os.WriteFile(file, []byte(header+txt), 0o644); err != nil {
 			panic(err)
 		}
-		jobs = append(jobs, job{o, file})
+		j := job{o: o, file: file}
+		if !o.Cover {
+			// instances-only variant: quantified hypotheses replaced by their ground instances
+			any := false
+			q2 := &Query{Axioms: q.Axioms, GetValues: q.GetValues}
+			for _, a := range q.Asserts {
+				d, dr := dropQuant(a)
+				if dr {
+					any = true
+				}
+				q2.Asserts = append(q2.Asserts, d)
+			}
+			if any {
+				txt2, _ := q2.Render(false)
+				j.qfFile = filepath.Join(cfg.dir, fmt.Sprintf("o%05d.inst.smt2", i))
+				os.WriteFile(j.qfFile, []byte(header+"; instances-only weakening\n"+txt2), 0o644)
+			}
+		}
+		jobs = append(jobs, j)
 	}
 	var wg sync.WaitGroup
 	ch := make(chan job)
@@ -229,7 +270,20 @@ func solveAll(obls []*Obligation, cfg solveCfg) {
 			defer wg.Done()
 			for j := range ch {
 				o := j.o
-				r := solveQuery(j.file, cfg.fastS, cfg.fullS, cfg.confirm && !o.Cover)
+				var r solveOut
+				done := false
+				if j.qfFile != "" {
+					r = solveQuery(j.qfFile, cfg.fastS, cfg.fullS, false)
+					if r.status == "unsat" {
+						r.solver += "+inst"
+						done = true
+					}
+				}
+				if !done {
+					t1 := r.secs
+					r = solveQuery(j.file, cfg.fastS, cfg.fullS, cfg.confirm && !o.Cover)
+					r.secs += t1
+				}
 				o.Solver, o.Time, o.Raw = r.solver, r.secs, r.raw
 				switch {
 				case o.Cover && r.status == "sat":
@@ -306,7 +360,23 @@ func explain(o *Obligation, dir string) string {
 	os.WriteFile(file, []byte(txt), 0o644)
 	r := runSolver(context.Background(), solvers[0], 20, file)
 	if r.status != "sat" {
-		return "explain: solver says " + r.status
+		// fall back to the instances-only weakening (decidable, but its model may be spurious)
+		var as []*Term
+		for _, a := range q.Asserts {
+			d, _ := dropQuant(a)
+			as = append(as, d)
+		}
+		q.Asserts = as
+		txt, gv = q.Render(true)
+		os.WriteFile(file, []byte(txt), 0o644)
+		r = runSolver(context.Background(), solvers[1], 20, file)
+		if r.status != "sat" {
+			r = runSolver(context.Background(), solvers[0], 20, file)
+		}
+		if r.status != "sat" {
+			return "explain: solver says " + r.status + " (also on the instances-only weakening)\n"
+		}
+		fmt.Println("  (model of the instances-only weakening; may be spurious)")
 	}
 	// parse get-value output: pairs "(expr value)"
 	var sb strings.Builder
